@@ -39,7 +39,7 @@ pub fn main(tier: Tier, seed: u64) -> i32 {
             return rep.finish();
         }
     };
-    let cap = if tier.is_thorough() { usize::MAX } else { 8 };
+    let cap = if tier.is_thorough() { usize::MAX } else { 24 };
     let cases = match gen_cases(&cfgs, cap, tier.is_thorough(), &|l| is_online(l), true) {
         Ok(c) => c,
         Err(e) => {
